@@ -40,6 +40,7 @@ type hsConfig struct {
 	RefIAExtra int // a reference client appends this many payload bytes to IA
 	RefPipeline int // a reference client offering one method pipelines this many payload bytes behind message 3
 	WrongHash  bool // the client asks for a torrent the server does not have
+	RefSecret  []byte `json:",omitempty"` // private DH value of the reference side (nil: a fixed default)
 }
 
 func (c hsConfig) String() string {
@@ -108,7 +109,10 @@ func (o sideOutcome) key() string {
 
 type hsRun struct {
 	C, S   sideOutcome
-	Points []point
+	// the public DH value the reference side received from storrent, and the
+	// shared secret it computed
+	RefPeerPub, RefS []byte
+	Points           []point
 	Hung   bool // somebody only returned because a deadline fired
 }
 
@@ -207,10 +211,15 @@ func runHandshakeInBubble(cfg hsConfig, pol policy) (out hsRun) {
 		var rw io.ReadWriter = ce
 		hs := refPlainHandshake(wantHash, hsCID)
 		if cfg.MSE {
-			cp := &refmse.ClientParams{Secret: bytes.Repeat([]byte{0x42}, 20), PadA: cfg.PadC, Provide: cfg.RefProvide,
+			secret := bytes.Repeat([]byte{0x42}, 20)
+			if cfg.RefSecret != nil {
+				secret = cfg.RefSecret
+			}
+			cp := &refmse.ClientParams{Secret: secret, PadA: cfg.PadC, Provide: cfg.RefProvide,
 				PadC: cfg.RefPadC, IA: append(append([]byte{}, hs...), earlyBytes(cfg.RefIAExtra, 0x1A)...), SKey: wantHash,
 				Pipeline: earlyBytes(cfg.RefPipeline, 0x2B)}
 			st, sel, err := refmse.Client(ce, cp)
+			out.RefPeerPub, out.RefS = cp.PeerPub, cp.S
 			if err != nil {
 				o.Err = err.Error()
 				ce.Close()
@@ -271,12 +280,17 @@ func runHandshakeInBubble(cfg hsConfig, pol policy) (out hsRun) {
 		// reference server
 		var rw io.ReadWriter = se
 		if cfg.MSE {
-			sp := &refmse.ServerParams{Secret: bytes.Repeat([]byte{0x24}, 20), PadB: cfg.PadS, PadD: cfg.RefPadD, SKeys: [][]byte{hsInfoHash}}
+			secret := bytes.Repeat([]byte{0x24}, 20)
+			if cfg.RefSecret != nil {
+				secret = cfg.RefSecret
+			}
+			sp := &refmse.ServerParams{Secret: secret, PadB: cfg.PadS, PadD: cfg.RefPadD, SKeys: [][]byte{hsInfoHash}}
 			if cfg.RefSelect != 0 {
 				sel := cfg.RefSelect
 				sp.Select = func(uint32) uint32 { return sel }
 			}
 			st, err := refmse.Server(se, sp)
+			out.RefPeerPub, out.RefS = sp.PeerPub, sp.S
 			if err != nil {
 				o.Err = err.Error()
 				se.Close()
